@@ -162,6 +162,63 @@ def sweep_container(args):
         shutil.rmtree(root, ignore_errors=True)
 
 
+def page_boundary(ck):
+    """one pack with >= 1000 entries and the zero-length object (which shares its offset with its neighbour) exactly at a multiple of 1000
+    in offset order: damage to the entries around that position must be reported (any paging of the per-pack scan must not lose a row)"""
+    common.use_repo()
+    from disk_objectstore import Container
+    for n, epos in ((1003, 999), (2003, 1999), (1003, 1000)):
+        root = common.scratch_root()
+        try:
+            d = os.path.join(root, 'c')
+            c = Container(d)
+            c.init_container(clear=True, pack_size_target=10 ** 9)
+            objs = [b'pb-%06d-payload' % i for i in range(n)]
+            objs[epos] = b''
+            keys = c.add_objects_to_pack(objs, compress=False)
+            truth = dict(zip(keys, objs))
+            if not clean(c):
+                ck.fail(f'validate() reports issues on an undamaged pack of {n} objects', {'kind': 'page-boundary', 'n': n, 'empty_at': epos}, 'C12:false-positive')
+            c.close()
+            raw = store.raw_state(d, 'sha256')
+            rows = sorted((r for r in raw['rows']), key=lambda r: (r[3], r[4]))
+            orig = raw['packs'][0]
+            p = os.path.join(d, 'packs', '0')
+            idx = os.path.join(d, 'packs.idx')
+            for pos in sorted({epos - 1, epos + 1, epos + 2, 999, 1000, 1001} & set(range(n))):
+                r = rows[pos]
+                if r[4] == 0:
+                    continue
+                x = bytearray(orig)
+                x[r[3]] ^= 1
+                open(p, 'wb').write(x)
+                c = Container(d)
+                cl = clean(c)
+                c.close()
+                open(p, 'wb').write(orig)
+                ck.count(('page-boundary', n, epos, pos, 'flip'))
+                if cl:
+                    ck.fail(f'validate() is clean although the first byte of entry #{pos} (offset order) of a pack of {n} entries is flipped '
+                            f'(zero-length object at #{epos})', {'kind': 'page-boundary', 'n': n, 'empty_at': epos, 'damaged': pos}, 'C12:false-negative')
+                con = sqlite3.connect(idx)
+                con.execute('update db_object set size=? where id=?', (r[6] + 1, r[0]))
+                con.commit()
+                con.close()
+                c = Container(d)
+                cl = clean(c)
+                c.close()
+                con = sqlite3.connect(idx)
+                con.execute('update db_object set size=? where id=?', (r[6], r[0]))
+                con.commit()
+                con.close()
+                ck.count(('page-boundary', n, epos, pos, 'size'))
+                if cl:
+                    ck.fail(f'validate() is clean although the recorded size of entry #{pos} of a pack of {n} entries is wrong '
+                            f'(zero-length object at #{epos})', {'kind': 'page-boundary', 'n': n, 'empty_at': epos, 'damaged': pos}, 'C12:false-negative')
+        finally:
+            shutil.rmtree(root, ignore_errors=True)
+
+
 def main(tier, seed, replay=None):
     ck = Check('C12', tier, seed)
     ck.cov['rule'] = ('no false positives: validate() after every step of random histories (shared runner); no false negatives: on containers with loose, '
@@ -169,7 +226,8 @@ def main(tier, seed, replay=None):
                       'byte and of every loose byte, every truncation cutting a referenced byte, and perturbations {-2,-1,+1,+2,+7} of offset/length/'
                       'size, flips of compressed and changes of pack_id for every index row; ground truth = reading every object through a new handle; '
                       'a damage is non-trivial if it makes some object unreadable/different/mis-sized; quick: 1 small container exhaustively, thorough: 12 '
-                      'small + 2 with a 66 kB compressed object (bit flips sampled there, exhaustive on the first/last 64 bytes)')
+                      'small + 2 with a 66 kB compressed object (bit flips sampled there, exhaustive on the first/last 64 bytes); plus packs of 1003/2003 entries with the '
+                      'zero-length object at a multiple of 1000 in offset order, damage around that position')
     ck.coq()
     import tracecheck
     tracecheck.check_traces(ck, 'C12', names=['pack_clean', 'topack', 'repack'])
@@ -195,5 +253,9 @@ def main(tier, seed, replay=None):
                     {'kind': 'damage', 'container_seed': r['seed'], 'big': r['big'], 'damages': r['missed']}, 'C12:false-negative')
             break
     ck.sample({'container_seed': jobs[0][0], 'damages_tried': total, 'harmless': harmless})
+    try:
+        page_boundary(ck)
+    except Exception as e:
+        ck.fail(f'page-boundary validation run raised {type(e).__name__}: {e}', {'kind': 'page-boundary'}, 'C12:page-boundary-exception')
     import tracecheck as _tc
     return ck.finish(search=_tc.crash_search(ck, ck.pid))
